@@ -69,32 +69,35 @@ def capture_tables():
         ET.clamp_table_small_numbers, ET.analyse_table_type, ET.is_permuted_table, ET.equal_tables,
         ET.build_optimized_tables,
     )
-    d_an = inspect.signature(o_an).parameters
-    d_perm = inspect.signature(o_perm).parameters
+
+    def tols(fn, table, a, kw):
+        """(rtol, atol, numbers) the real function will use, read off its own signature/defaults."""
+        try:
+            b = inspect.signature(fn).bind(table, *a, **kw)
+            b.apply_defaults()
+            g = b.arguments
+        except (TypeError, ValueError):
+            g = dict(kw)
+        return (float(g.get("rtol", ET.default_rtol)), float(g.get("atol", ET.default_atol)),
+                tuple(g.get("numbers", (-1.0, 0.0, 1.0))))
 
     def clamp(table, *a, **kw):
-        b = inspect.signature(o_clamp).bind(table, *a, **kw)
-        b.apply_defaults()
+        rt, at, numbers = tols(o_clamp, table, a, kw)
         raw = np.array(table, copy=True)
         out = o_clamp(table, *a, **kw)
-        log.append(("clamp", raw, float(b.arguments["rtol"]), float(b.arguments["atol"]),
-                    tuple(b.arguments["numbers"]), np.array(out, copy=True)))
+        log.append(("clamp", raw, rt, at, numbers, np.array(out, copy=True)))
         return out
 
     def analyse(table, *a, **kw):
-        b = inspect.signature(o_an).bind(table, *a, **kw)
-        b.apply_defaults()
+        rt, at, _ = tols(o_an, table, a, kw)
         r = o_an(table, *a, **kw)
-        log.append(("analyse", np.array(table, copy=True), float(b.arguments["rtol"]),
-                    float(b.arguments["atol"]), r))
+        log.append(("analyse", np.array(table, copy=True), rt, at, r))
         return r
 
     def permuted(table, *a, **kw):
-        b = inspect.signature(o_perm).bind(table, *a, **kw)
-        b.apply_defaults()
+        rt, at, _ = tols(o_perm, table, a, kw)
         r = o_perm(table, *a, **kw)
-        log.append(("permuted", np.array(table, copy=True), float(b.arguments["rtol"]),
-                    float(b.arguments["atol"]), bool(r)))
+        log.append(("permuted", np.array(table, copy=True), rt, at, bool(r)))
         return r
 
     def equal(a, b, *rest, **kw):
@@ -205,9 +208,10 @@ def check_tables(chk, driver, entries, rtol, atol):
         with capture_tables() as records:
             try:
                 pipeline.compute(entry.build(), opts)
-            except Exception as ex:  # unsupported entry: nothing to compare
+            except BaseException as ex:  # noqa: BLE001  the tables built before the failure are still compared
+                if isinstance(ex, (KeyboardInterrupt, SystemExit)):
+                    raise
                 chk.notes.setdefault("tables_skipped", []).append(f"{entry.name}: {type(ex).__name__}")
-                continue
         for rec in records:
             if "error" in rec:
                 chk.disagree("tables: capture", {"entry": entry.name, "detail": rec["error"]})
@@ -562,9 +566,11 @@ def check_one_factorization(chk, driver, name, rec, stats):
         return
 
     # ---------- accepted by the real code
-    if fz[0] == "err":
+    model_rejects = fz[0] == "err"
+    if model_rejects:
         chk.disagree("factorization: model rejects an accepted graph", {**where, "model": fz[1:], "graph": gS})
-        return
+        fz = ["ok", ["F"], ["factors"], ["nodefacs"], ["argidx"]]
+        m_wf = False
     f_targets = []
     real_factors = set()
     for fi, v in F.nodes.items():
@@ -586,28 +592,32 @@ def check_one_factorization(chk, driver, name, rec, stats):
              sample={**where, "F_nodes": len(f_nodes), "argkeys": n_keys})
     stats["accepted"] = stats.get("accepted", 0) + 1
 
-    # (ii) structure
-    if m_argidx != list(ex.arg_indices):
-        chk.disagree("factorization: arg_indices", {**where, "model": m_argidx, "impl": list(ex.arg_indices)})
-        return
-    real_nodefacs = [{tuple(int(a) for a in k): int(fi) for k, fi in (v.get("factors") or {}).items()}
-                     for _, v in S.nodes.items()]
-    cm, cr = _canon_nodes(m_F), _canon_nodes(f_nodes)
-    same_F = len(cm) == len(cr) and all(a[1] == b[1] and _lit_close(a[0], b[0]) for a, b in zip(cm, cr))
-    if not same_F:
-        i = next((i for i, (a, b) in enumerate(zip(cm, cr)) if a[1] != b[1] or not _lit_close(a[0], b[0])), min(len(cm), len(cr)))
-        chk.disagree("factorization: graph F", {**where, "model_len": len(cm), "impl_len": len(cr), "first_diff": i,
-                                               "model": cm[i:i + 2], "impl": cr[i:i + 2], "graph": gS})
-        return
-    if m_nodefacs != real_nodefacs:
-        i = next(i for i, (a, b) in enumerate(zip(m_nodefacs, real_nodefacs)) if a != b)
-        chk.disagree("factorization: S.nodes[i]['factors']", {**where, "node": i, "model": str(m_nodefacs[i]),
-                                                              "impl": str(real_nodefacs[i]), "graph": gS})
-        return
-    if m_factors != real_factors:
-        chk.disagree("factorization: argkeys / factor indices per component",
-                     {**where, "model": sorted(m_factors)[:20], "impl": sorted(real_factors)[:20], "graph": gS})
-        return
+    # (ii) structure (a disagreement here does not stop the identity check below, which judges the REAL
+    # S and F by the property's own oracle)
+    def structure():
+        if m_argidx != list(ex.arg_indices):
+            return "factorization: arg_indices", {**where, "model": m_argidx, "impl": list(ex.arg_indices)}
+        real_nodefacs = [{tuple(int(a) for a in k): int(fi) for k, fi in (v.get("factors") or {}).items()}
+                         for _, v in S.nodes.items()]
+        cm, cr = _canon_nodes(m_F), _canon_nodes(f_nodes)
+        same_F = len(cm) == len(cr) and all(a[1] == b[1] and _lit_close(a[0], b[0]) for a, b in zip(cm, cr))
+        if not same_F:
+            i = next((i for i, (a, b) in enumerate(zip(cm, cr)) if a[1] != b[1] or not _lit_close(a[0], b[0])),
+                     min(len(cm), len(cr)))
+            return "factorization: graph F", {**where, "model_len": len(cm), "impl_len": len(cr), "first_diff": i,
+                                              "model": cm[i:i + 2], "impl": cr[i:i + 2], "graph": gS}
+        if m_nodefacs != real_nodefacs:
+            i = next(i for i, (a, b) in enumerate(zip(m_nodefacs, real_nodefacs)) if a != b)
+            return "factorization: S.nodes[i]['factors']", {**where, "node": i, "model": str(m_nodefacs[i]),
+                                                           "impl": str(real_nodefacs[i]), "graph": gS}
+        if m_factors != real_factors:
+            return ("factorization: argkeys / factor indices per component",
+                    {**where, "model": sorted(m_factors)[:20], "impl": sorted(real_factors)[:20], "graph": gS})
+        return None
+
+    dis = ("model rejects", {}) if model_rejects else structure()
+    if dis is not None and not model_rejects:
+        chk.disagree(*dis)
 
     # (iii) Σ_k F_k Π args = S on exact random assignments, evaluated on the REAL S and the REAL F
     n_args, n_terms = len(ex.arg_indices), len(ex.ids)
@@ -641,16 +651,21 @@ def check_one_factorization(chk, driver, name, rec, stats):
         stats["identity_up_to_literal_rounding"] = stats.get("identity_up_to_literal_rounding", 0) + 1
     if bad is not None:
         cause = "wf-holds"
-        if not m_wf:
+        if model_rejects:
+            cause = "model-rejects"
+        elif not m_wf:
             cause = _wf_cause(s_nodes, m_nodefacs, targets, rank)
         chk.violation(key=f"factorization:identity-fails:{cause}",
                       what="compute_argument_factorization accepts the integrand but Σ_k F_k·Π args ≠ S "
                            f"({cause})",
                       payload={**where, **bad, "wf": m_wf, "wf_strict": m_strict, "graph": gS, "F": gF,
                                "factors": sorted(real_factors)})
-        if m_wf:
-            chk.disagree("factorization: identity fails although WF holds (theorem factorize_sound contradicted)",
+        if m_wf and dis is None:
+            chk.disagree("factorization: identity fails although WF holds and the model reproduces F "
+                         "(theorem factorize_sound contradicted: evaluator or exporter wrong)",
                          {**where, **bad, "graph": gS})
+        return
+    if model_rejects:
         return
     if not m_wf:
         stats["wf_false_identity_holds"] = stats.get("wf_false_identity_holds", 0) + 1
